@@ -68,6 +68,9 @@ class OpTaint:
             k = self.kind(f, e.value, env)
             if k == 'OBJ' and e.attr == 'check_str':
                 return 'VAL'
+            if k == 'OBJ' and e.attr == 'name':
+                return 'KEY'    # the rule object of a file entry carries
+                                # the name as the file spells it
             if k == 'OBJ' and e.attr == 'check':
                 return None
             return None
@@ -112,6 +115,7 @@ class OpTaint:
                 f, mc[0], env) == 'OBJMAP' and isinstance(
                     target, ast.Tuple) and len(target.elts) == 2:
             env[U(target.elts[1])] = 'OBJ'
+            env[U(target.elts[0])] = 'KEY'
         elif mc and mc[1] == 'values' and self.kind(
                 f, mc[0], env) == 'OBJMAP' and isinstance(target, ast.Name):
             env[target.id] = 'OBJ'
